@@ -66,7 +66,7 @@ from dask_expr._expr import (
     no_default,
 )
 from dask_expr._reductions import ApplyConcatApply, Chunk, Reduction
-from dask_expr._shuffle import RearrangeByColumn
+from dask_expr._shuffle import RearrangeByColumn, _temporary_label
 from dask_expr._util import (
     PANDAS_GE_300,
     _labels_to_list,
@@ -1388,12 +1388,15 @@ class GroupByCumulative(Expr, GroupByBase):
         by = self.by.copy()
         for i, b in enumerate(by):
             if not isinstance(b, Expr):
+                # the helper column must not replace a cumulated column or the
+                # helper of another key (1 and "1")
+                label = _temporary_label(frame.columns, f"_by_{b}")
                 if b in self.frame.columns:
-                    frame = Assign(frame, f"_by_{b}", self.frame[b])
+                    frame = Assign(frame, label, self.frame[b])
                 else:
-                    frame = Assign(frame, f"_by_{b}", self.frame.index)
+                    frame = Assign(frame, label, self.frame.index)
 
-                by[i] = f"_by_{b}"
+                by[i] = label
 
         columns = 0 if columns is None else columns
         cum_last = MapPartitions(
